@@ -54,6 +54,12 @@ CLAIMS = {
  "C12": ("state-table invariants by path enumeration of all SMP handlers (non-success paths return EXPECT1), type-directed use-after-verify gates, must-facts of each verifier (range checks and proofs with their indices), sibling agreement of otrVersion.isGroupElement implementations, nil-typestate for the SMP state, bounds facts of the TLV parsers",
          "Structural necessary conditions: deviant or unexpected messages lead back to EXPECT1 with an abort; peer values are range- and proof-checked before any use; no nil dispatch; element counts checked; restart sends abort first. otrV2.isGroupElement accepting everything (D12) is a listed known finding. Success of a later honest run and the number theory are not decided.",
          "DESIGN.md §4/C12"),
+ "C10": ("wire-layout extraction (writer field sequences and reader Extract* sequences over SSA) compared with tables transcribed from the OTR v2/v3 specification; value-term checks of the key derivation, MAC inputs, cipher IVs, padding, SMP indices; constant checks (message/TLV types, flags, the group-5 prime)",
+         "Static part of conformance: every emitted structure has the specified field list/order/width, the KDF uses the specified constant bytes, hashes, slices and the numeric high/low-end rule, MACs cover the specified bytes with the specified truncation, constants have the specified values, replies are addressed with the adopted peer tag. Numeric correctness of big-integer/crypto code and interoperability with an independent implementation are not decided (they need execution).",
+         "DESIGN.md §4/C10"),
+ "C17": ("sibling cross-check of serialiser and parser of each structure (extracted field sequences with destination fields), width/shape checks of the Append/Extract/Serialize primitives, index-order agreement of SMP TLVs, length-equals-content term checks at every TLV construction, grammar agreement of the key-file writer and reader, integer-narrowing audit of lengths",
+         "Structural necessary conditions of round trips: writer and reader of every structure agree on kinds, order, widths and destination fields; lengths are the lengths of what is written; MPIs go through big.Int.Bytes (minimal form); key-file writer and reader share list heads and parameter names and atoms are read verbatim. Two length narrowings that wrap for oversized caller input (D20) are listed known findings. Value-level equality for all inputs is not decided.",
+         "DESIGN.md §4/C17"),
 }
 
 NA = {}
